@@ -8,13 +8,27 @@ use iggy::{
     error::IggyError,
     utils::{byte_size::IggyByteSize, checksum, sizeable::Sizeable},
 };
+use std::sync::atomic::Ordering;
 use std::sync::Arc;
+use std::time::Duration;
 use tracing::{trace, warn};
 
 const EMPTY_MESSAGES: Vec<RetainedMessage> = vec![];
 const COMPONENT: &str = "STREAMING_SEGMENT";
 
 impl Segment {
+    /// Under no-wait confirmation a batch that has left the unsaved buffer may still be on its way
+    /// to the log file. Reads from the file wait until the background persister has written
+    /// everything that was handed to it, otherwise they would see a hole where that batch belongs.
+    async fn wait_until_persisted(&self) {
+        let handed_over = self.last_index_position as u64;
+        let mut waited_ms = 0;
+        while self.log_size_bytes.load(Ordering::Acquire) < handed_over && waited_ms < 5000 {
+            tokio::time::sleep(Duration::from_millis(1)).await;
+            waited_ms += 1;
+        }
+    }
+
     pub fn get_messages_count(&self) -> u64 {
         if self.size_bytes == 0 {
             return 0;
@@ -128,6 +142,7 @@ impl Segment {
         &self,
         size_bytes: u64,
     ) -> Result<Vec<RetainedMessageBatch>, IggyError> {
+        self.wait_until_persisted().await;
         let mut batches = Vec::new();
         let mut total_size_bytes = IggyByteSize::default();
         self.log_reader
@@ -168,6 +183,7 @@ impl Segment {
         &self,
         index_range: &IndexRange,
     ) -> Result<Vec<RetainedMessageBatch>, IggyError> {
+        self.wait_until_persisted().await;
         trace!("Loading message batches for index range: {:?}", index_range);
 
         let batches = self
@@ -214,6 +230,7 @@ impl Segment {
         start_timestamp: u64,
         count: usize,
     ) -> Result<Vec<Arc<RetainedMessage>>, IggyError> {
+        self.wait_until_persisted().await;
         let index = self.load_index_for_timestamp(start_timestamp).await?;
         let Some(index) = index else {
             return Ok(Vec::new());
@@ -299,6 +316,7 @@ impl Segment {
         start_offset: u64,
         end_offset: u64,
     ) -> Result<Vec<Arc<RetainedMessage>>, IggyError> {
+        self.wait_until_persisted().await;
         trace!(
             "Loading messages from disk, start offset: {}, end offset: {}, current offset: {}...",
             start_offset,
